@@ -375,11 +375,12 @@ def m_C20(tier):
                             continue
                         cfgs.append(C(mod, alg, ms, purge, 'default', backend, init, nargs=2, spellings=1))
             for km in ('str', 'pickle') + (('rawsent', 'strsent', 'md5sent', 'chain', 'rawtyped', 'picklenf') if (tier == 'thorough' or alg in ('lru', 'inf')) else ('strsent',)):
-                cfgs.append(C(mod, alg, sizes[0], False, km, 'dict', nargs=2, spellings=1))
+                # (configuration survival shows at the first round trip: shallow)
+                cfgs.append(C(mod, alg, sizes[0], False, km, 'dict', nargs=2, spellings=1, **({} if km in ('str', 'pickle') else {'depth': 3})))
             # rounding configuration must survive the round trip: float arguments, tol None / 0 / 1, deep or not
             for tol, deep in ((None, False), (None, True), (0, True), (1, False)):
                 if tier == 'thorough' or alg in ('lru', 'inf', 'mru'):
-                    cfgs.append(C(mod, alg, sizes[0], False, 'str', 'none', nargs=3, spellings=1, args='float', tol=tol, deep=deep))
+                    cfgs.append(C(mod, alg, sizes[0], False, 'str', 'none', nargs=3, spellings=1, args='float', tol=tol, deep=deep, depth=3))
             for b in (('file',) if tier == 'quick' else ('file', 'dir', 'null')):
                 cfgs.append(C(mod, alg, sizes[0], False, 'str', b, nargs=2, spellings=1))
             # archives whose settings travel only in their pickled state (protocol, compression, ...)
@@ -453,15 +454,15 @@ MATRICES = {'C01': m_C01, 'C02': m_C02, 'C05': m_C05, 'C06': m_C06, 'C07': m_C07
 
 BOUNDS = {
     # prop: (quick (depth, states), thorough (depth, states), thorough dfs depth)
-    'C01': ((6, 1500), (8, 12000), 4),
-    'C02': ((6, 1500), (8, 12000), 4),
+    'C01': ((6, 900), (8, 12000), 4),
+    'C02': ((6, 1000), (8, 12000), 4),
     'C05': ((6, 1200), (8, 15000), 4),
     'C06': ((6, 500), (8, 10000), 4),
     'C07': ((6, 900), (8, 12000), 4),
     'C15': ((5, 1200), (7, 10000), 4),
     'C16': ((5, 1200), (7, 10000), 4),
     'C18': ((5, 1000), (7, 8000), 3),
-    'C20': ((5, 600), (6, 4000), 0),
+    'C20': ((5, 450), (6, 4000), 0),
 }
 
 RULES = {
